@@ -47,8 +47,25 @@ def has_sub_ir(block):
     return False
 
 
-def bounding_defs(block, pname, mname):
-    """gate_def objects of every prepare/measure statement reachable from block."""
+def gate_statement_ids(block):
+    from jaqalpaq.core import BlockStatement, LoopStatement, GateStatement
+
+    out = set()
+    stack = [block]
+    while stack:
+        s = stack.pop()
+        if isinstance(s, GateStatement):
+            out.add(id(s))
+        elif isinstance(s, LoopStatement):
+            stack.append(s.statements)
+        elif isinstance(s, BlockStatement):
+            stack.extend(s.statements)
+    return out
+
+
+def bounding_defs(block, pname, mname, exclude=()):
+    """gate_def objects of every prepare/measure statement reachable from block that the pass
+    created (statements that already existed in the input are excluded by identity)."""
     from jaqalpaq.core import BlockStatement, LoopStatement, GateStatement
 
     out = []
@@ -56,7 +73,7 @@ def bounding_defs(block, pname, mname):
     while stack:
         s = stack.pop()
         if isinstance(s, GateStatement):
-            if s.name in (pname, mname):
+            if s.name in (pname, mname) and id(s) not in exclude:
                 out.append(s.gate_def)
         elif isinstance(s, LoopStatement):
             stack.append(s.statements)
@@ -92,6 +109,12 @@ def judge_pass(case):
         pdef, mdef = GateDefinition("my_prep"), GateDefinition("my_meas")
         args = (pdef, mdef)
         pname, mname = "my_prep", "my_meas"
+    elif caller == "defs-native-names":
+        # the caller's own definitions carry the names of native gates: the caller's must be used
+        from jaqalpaq.core.gatedef import BusyGateDefinition
+
+        pdef, mdef = BusyGateDefinition("prepare_all"), BusyGateDefinition("measure_all")
+        args = (pdef, mdef)
     elif caller == "names" and use_native:
         args = ("prepare_all", "measure_all")
     fails = []
@@ -125,12 +148,15 @@ def judge_pass(case):
         if native_names(c) != native_names(r):
             fails.append(("native-gates-changed", {"before": native_names(c), "after": native_names(r)}))
         # which definitions bound the subcircuits
-        defs = bounding_defs(r.body, pname, mname)
+        old = gate_statement_ids(c.body)
+        for m in c.macros.values():
+            old |= gate_statement_ids(m.body)
+        defs = bounding_defs(r.body, pname, mname, old)
         for m in r.macros.values():
-            defs += bounding_defs(m.body, pname, mname)
-        if caller == "defs":
+            defs += bounding_defs(m.body, pname, mname, old)
+        if caller in ("defs", "defs-native-names"):
             if any(d is not pdef and d is not mdef for d in defs):
-                fails.append(("bounding-gate-not-callers", {}))
+                fails.append(("bounding-gate-not-callers" + (":caller-uses-native-name" if caller != "defs" else ""), {}))
         elif use_native:
             ng = c.native_gates
             if any(d is not ng["prepare_all"] and d is not ng["measure_all"] for d in defs):
@@ -264,8 +290,9 @@ def process(ctx, case, seen):
     if any(s[0] == "loop" and any(x[0] == "subcircuit_block" for x in sx.walk(s[2])) for s in sx.walk(prog)):
         rec.count("sub-in-loop")
     if case.get("mode") != "exec":
-        if case.get("caller") == "defs":
+        if case.get("caller") in ("defs", "defs-native-names"):
             rec.count("caller-bounding-gates")
+            rec.count("caller:" + case["caller"])
         elif case.get("native"):
             rec.count("native-bounding-gates")
     else:
@@ -299,7 +326,7 @@ def shard(ctx):
             case = {"prog": g.program(), "mode": "pass", "native": False, "caller": rng.choice([None, None, "defs"])}
         elif r < 0.7:
             g = gen.ExecGen(rng, max_depth=rng.choice([2, 3]), reg_size=(1, 4))
-            case = {"prog": g.program(), "mode": "pass", "native": True, "caller": rng.choice([None, "names", "defs"])}
+            case = {"prog": g.program(), "mode": "pass", "native": True, "caller": rng.choice([None, "names", "defs", "defs-native-names"])}
         else:
             g = gen.ExecGen(rng, max_depth=rng.choice([1, 2, 3]), reg_size=(1, 4), loop_counts=(0, 1, 2, 3),
                             body_len=(1, 4))
